@@ -208,6 +208,26 @@ func (ev *evaluator) eval(fr *evalFrame, v ssa.Value, depth int) (interface{}, b
 		if x.Op == token.MUL {
 			// a load from a literal package-level table (never written after init: C09 R09.1)
 			switch addr := x.X.(type) {
+			case *ssa.FieldAddr:
+				// a field of an object this activation allocated holds what was (once) stored into it
+				if al, ok := addr.X.(*ssa.Alloc); ok && al.Parent() != nil {
+					var stored ssa.Value
+					cnt := 0
+					for _, b := range al.Parent().Blocks {
+						for _, ins := range b.Instrs {
+							if st, ok := ins.(*ssa.Store); ok {
+								if fa, ok := st.Addr.(*ssa.FieldAddr); ok && fa.X == ssa.Value(al) && fa.Field == addr.Field {
+									stored = st.Val
+									cnt++
+								}
+							}
+						}
+					}
+					if cnt == 1 {
+						return ev.eval(fr, stored, depth+1)
+					}
+				}
+				return nil, false
 			case *ssa.Global:
 				if tv := globalTVal(addr); tv != nil {
 					return tvalScalar(tv)
